@@ -58,6 +58,9 @@ func CanonName(fn *ssa.Function) string {
 		suffix := strings.TrimPrefix(fn.Name(), root.Name())
 		return base + suffix
 	}
+	if old := recordedFuncName(fn); old != "" {
+		return old // a function that was renamed since the ledger was recorded (rename.go)
+	}
 	pkg := ""
 	if fn.Pkg != nil {
 		pkg = fn.Pkg.Pkg.Path()
@@ -186,6 +189,8 @@ func LoadProgram(patterns []string) (*Program, error) {
 			}
 		}
 	}
+	// functions renamed since the ledger was recorded answer to their recorded names from here on
+	applyFuncRenames(P)
 	// contract files
 	for _, p := range pkgs {
 		seenDir := map[string]bool{}
